@@ -24,3 +24,11 @@ Definition pipeline_of (ks : list bytes) : abstract_pipeline := {| ap_keys := ks
 
 Lemma pipeline_of_injective : forall ks ks', pipeline_of ks = pipeline_of ks' -> ks = ks'.
 Proof. intros ks ks' H. inversion H. reflexivity. Qed.
+
+(* (3) metric label values are a rendering of the key values that may only LOSE bytes: [subseq a b] = a is b with
+       some elements left out (order kept).  Together with Spec/Utf8Spec.v valid_utf8 (RFC 3629) this is what the
+       label theorems are stated against. *)
+Inductive subseq {A : Type} : list A -> list A -> Prop :=
+| subseq_nil : subseq [] []
+| subseq_keep : forall x a b, subseq a b -> subseq (x :: a) (x :: b)
+| subseq_drop : forall x a b, subseq a b -> subseq a (x :: b).
